@@ -70,6 +70,11 @@ func c02Bases() []struct {
 		name string
 		img  []byte
 	}{"image-with-64KiB-DOS-stub", pegen.Build(peLongStubLayout())})
+	// sections whose VirtualSize is 0 although they have raw data (first and middle of three)
+	out = append(out, struct {
+		name string
+		img  []byte
+	}{"zero-VirtualSize-sections-image", pegen.Build(pegen.Layout{PE32Plus: true, Lfanew: 0x40, Secs: []pegen.Sec{{RawSize: 16, VirtZero: true}, {RawSize: 24, VirtZero: true}, {RawSize: 8}}, Trailing: 2})})
 	// not well-formed but accepted by the parser: SizeOfHeaders reaches 8 bytes into the first section
 	out = append(out, struct {
 		name string
@@ -142,12 +147,9 @@ func c02CertSet(k int) []c02Certs {
 	// same issuer and serial under keys of another size as well (a larger and a smaller modulus than
 	// the signer's where possible): anything keyed on issuer+serial alone, or sized by the certificate
 	// at hand, shows here
-	big, small := 4, 6
-	if k == 4 {
-		big = 3
-	}
+	others := samePlatesOtherSizes(keys.C(k))
 	return []c02Certs{{"signer's certificate", keys.C(k)}, {"another certificate", keys.C(other)}, {"same issuer+serial, other key", samePlate(keys.C(k))},
-		{"same issuer+serial, key of another size", samePlateK(keys.C(k), big)}, {"same issuer+serial, 2047-bit key", samePlateK(keys.C(k), small)}}
+		{"same issuer+serial, key of another size", others[0]}, {"same issuer+serial, key of a third size", others[1]}}
 }
 
 func c02Judge(c *hx.Ctx, x []byte, class string, certs []c02Certs, untouched bool) {
